@@ -479,7 +479,7 @@ def shard(ctx):
             try:
                 run_state_machine_as_test(
                     hypothesis.seed(ctx.shard_seed(rnd))(M),
-                    settings=core.hyp_settings(30 if q else 400, stateful_step_count=25 if q else 30),
+                    settings=core.hyp_settings(30 if q else 1500, stateful_step_count=25 if q else 40),
                 )
                 break
             except core.Violation as v:
